@@ -10,7 +10,7 @@ import Asn1Proofs.Lemmas.X690Int
     OCTET STRING, the character strings and BIT STRING: whatever `decV` accepts, `BerCodec.dec`
     accepts with the same value (BIT STRING: when the unused bits are zero, deviation
     `dirtyUnusedBits`);
-  * closed witnesses of the two deviations of the code from the reference decoder.
+  * a closed regression theorem for the repaired indefinite-length defect and a closed witness of the remaining deviation.
 -/
 set_option linter.unusedSimpArgs false
 set_option linter.unusedVariables false
@@ -403,19 +403,36 @@ theorem complete_partial (t : Ty) (bs : Bytes) (v : Val) (hl : isPrimLeaf t = tr
     simp only [BerCodec.decode, BerCodec.decodeWithLength, hk, Except.map]
   · cases h
 
-/-! ### the two deviations of the code from the reference decoder -/
+/-! ### the repaired defect (regression) and the remaining deviation -/
 
-/-- KNOWN DEFECT (ber.py): an indefinite-length SEQUENCE whose type has extension additions, none of
-them present: after the root loop has consumed the end-of-contents octets the additions loop looks
-for the end of the contents again.  SEQUENCE { a BOOLEAN, ..., b INTEGER OPTIONAL }, 30 80 80 01 ff 00 00 -/
-theorem witness_indefinite_extensible_rejected :
+/-- REGRESSION for the repaired defect (/repo commit 300e5ac; before it `30 80 80 01 ff 00 00` was a
+`DecodeError`): an indefinite-length SEQUENCE whose type has extension additions, none of them
+present -- after the root loop has consumed the end-of-contents octets the additions loop is
+skipped (`while not out_of_data:`), OPTIONAL additions stay absent, DEFAULT ones are filled in; also
+nested inside a definite- or indefinite-length SEQUENCE, and for the DER model (der.py reuses
+ber.py's SEQUENCE) -/
+theorem fixed_indefinite_extensible_accepted :
     let t : Ty := .sequence (.cons "a" .mandatory .boolean .nil) true (.cons "b" .optional (.integer ⟨none, none, false⟩) .nil)
+    let d : Ty := .sequence (.cons "a" .mandatory .boolean .nil) true (.cons "b" (.default (.int 7)) (.integer ⟨none, none, false⟩) .nil)
+    let o : Ty := .sequence (.cons "x" .mandatory t (.cons "y" .mandatory .boolean .nil)) false .nil
     berDecodeRef t [0x30, 0x80, 0x80, 0x01, 0xff, 0x00, 0x00] = some (.record [("a", .bool true)]) ∧
-    BerCodec.decode t [0x30, 0x80, 0x80, 0x01, 0xff, 0x00, 0x00] = .error .decodeError ∧
-    -- the same value with a definite length, or with the addition present, is accepted
+    BerCodec.decodeWithLength t [0x30, 0x80, 0x80, 0x01, 0xff, 0x00, 0x00] = .ok (.record [("a", .bool true)], 7) ∧
+    BerCodec.decodeWithLength d [0x30, 0x80, 0x80, 0x01, 0xff, 0x00, 0x00] = .ok (.record [("a", .bool true), ("b", .int 7)], 7) ∧
+    -- nested, outer indefinite / outer definite
+    BerCodec.decodeWithLength o [0x30, 0x80, 0xa0, 0x80, 0x80, 0x01, 0xff, 0x00, 0x00, 0x81, 0x01, 0x00, 0x00, 0x00]
+      = .ok (.record [("x", .record [("a", .bool true)]), ("y", .bool false)], 14) ∧
+    BerCodec.decodeWithLength o [0x30, 0x0a, 0xa0, 0x80, 0x80, 0x01, 0xff, 0x00, 0x00, 0x81, 0x01, 0x00]
+      = .ok (.record [("x", .record [("a", .bool true)]), ("y", .bool false)], 12) ∧
+    berDecodeRef o [0x30, 0x80, 0xa0, 0x80, 0x80, 0x01, 0xff, 0x00, 0x00, 0x81, 0x01, 0x00, 0x00, 0x00]
+      = some (.record [("x", .record [("a", .bool true)]), ("y", .bool false)]) ∧
+    -- the forms that were accepted before still are
     BerCodec.decode t [0x30, 0x03, 0x80, 0x01, 0xff] = .ok (.record [("a", .bool true)]) ∧
-    BerCodec.decode t [0x30, 0x80, 0x80, 0x01, 0xff, 0x81, 0x01, 0x05, 0x00, 0x00] = .ok (.record [("a", .bool true), ("b", .int 5)]) := by
-  refine ⟨?_, ?_, ?_, ?_⟩ <;> rfl
+    BerCodec.decode t [0x30, 0x80, 0x80, 0x01, 0xff, 0x81, 0x01, 0x05, 0x00, 0x00] = .ok (.record [("a", .bool true), ("b", .int 5)]) ∧
+    -- DER model
+    Der.decodeWithLength t [0x30, 0x80, 0x80, 0x01, 0xff, 0x00, 0x00] = .ok (.record [("a", .bool true)], 7) ∧
+    Der.decodeWithLength o [0x30, 0x0a, 0xa0, 0x80, 0x80, 0x01, 0xff, 0x00, 0x00, 0x81, 0x01, 0x00]
+      = .ok (.record [("x", .record [("a", .bool true)]), ("y", .bool false)], 12) := by
+  refine ⟨?_, ?_, ?_, ?_, ?_, ?_, ?_, ?_, ?_, ?_⟩ <;> rfl
 
 /-- deviation `dirtyUnusedBits`: BER lets the sender put anything in the unused bits (8.6.2.4); the
 code returns them as part of the value -/
@@ -432,5 +449,5 @@ end Asn1.X690
 #print axioms Asn1.X690.complete_octets_primitive
 #print axioms Asn1.X690.complete_chars_primitive
 #print axioms Asn1.X690.complete_bits_primitive
-#print axioms Asn1.X690.witness_indefinite_extensible_rejected
+#print axioms Asn1.X690.fixed_indefinite_extensible_accepted
 #print axioms Asn1.X690.witness_dirty_unused_bits
